@@ -31,7 +31,7 @@ fn meta() -> Meta {
     Meta {
         id: "C20",
         level: "exploration",
-        rule: "10 messages (empty, plain, two lines, quotes, backslash, control characters, non-ASCII, braces, JSON-like, 4 KiB) x module path / file / line present or absent (8) x key-values {none, one string, string+int} x 5 levels x 9 format functions (default, opt, detailed, with_thread, their coloured variants, json) x {LF, CRLF} x {Direct, BufferDontFlush(8), Async{1,8}}: framing against the same format function, fidelity against an independent re-rendering / JSON decoding; recursive logging (a Display that logs two inner records) for every format x ending x sync mode; single timestamp across file + additional writer + stderr + stdout under a clock that advances on every query; distinct_nontrivial = distinct (format, ending, mode, record) with a message that needs escaping or spans lines, or absent fields",
+        rule: "every message of 2-3 (quick) / 2-4 (thorough) tokens over {quote, backslash, LF, CR, TAB, 0x01, 0x7f, e-acute, emoji, braces, colon, space, a} with all fields present, and 10 messages (empty, plain, two lines, quotes, backslash, control characters, non-ASCII, braces, JSON-like, 4 KiB) x module path / file / line present or absent (8) x key-values {none, one string, string+int} x 5 levels x 9 format functions (default, opt, detailed, with_thread, their coloured variants, json) x {LF, CRLF} x {Direct, BufferDontFlush(8), Async{1,8}}: framing against the same format function, fidelity against an independent re-rendering / JSON decoding; recursive logging (a Display that logs two inner records) for every format x ending x sync mode; single timestamp across file + additional writer + stderr + stdout under a clock that advances on every query; distinct_nontrivial = distinct (format, ending, mode, record) with a message that needs escaping or spans lines, or absent fields",
         assumptions: vec![
             "virtual clock frozen for framing / fidelity, self-advancing (+1 s per query) for the single-timestamp clause".into(),
             "colour codes are removed with the pattern ESC [ digits ; ... m".into(),
@@ -107,9 +107,33 @@ struct RecSpec {
 
 static THOROUGH: std::sync::atomic::AtomicBool = std::sync::atomic::AtomicBool::new(false);
 
+/// Every string of 2..3 (quick) / 2..4 (thorough) tokens over characters that formats, JSON escaping
+/// and line framing could trip over.
+fn generated_messages() -> Vec<String> {
+    const TOK: [&str; 14] = ["\"", "\\", "\n", "\r", "\t", "\u{1}", "\u{7f}", "é", "😀", "{", "}", ":", " ", "a"];
+    let depth = if THOROUGH.load(std::sync::atomic::Ordering::Relaxed) { 4 } else { 3 };
+    let mut v = Vec::new();
+    crate::for_each_word(TOK.len(), depth, |w| {
+        if w.len() >= 2 {
+            v.push(w.iter().map(|i| TOK[*i]).collect::<String>());
+        }
+    });
+    v
+}
+
 fn recspecs() -> Vec<RecSpec> {
     let all = THOROUGH.load(std::sync::atomic::Ordering::Relaxed);
     let mut v = Vec::new();
+    for msg in generated_messages() {
+        v.push(RecSpec {
+            level: Level::Info,
+            msg,
+            module: Some("my_mod::sub"),
+            file: Some("src/some file.rs"),
+            line: Some(4711),
+            kv: 0,
+        });
+    }
     for msg in messages() {
         for bits in 0..8u8 {
             for kv in 0..3u8 {
